@@ -21,14 +21,14 @@ ASSUMPTIONS = ["nodes whose children are out of bounds or not ordered by start a
                "RecursionError on trees deeper than ~1000 is C01's finding"]
 EXPECTED_WALL = {"quick": 40, "thorough": 300}
 REQUIRED = {"flatten_judged": 5000, "flatten_substituted": 500, "scan_results_judged": 200, "identity_trees": 100,
-            "squash_compared": 500, "quoted_substitutions": 50}
+            "squash_compared": 500, "quoted_substitutions": 50, "incremental_expansions": 100}
 
 
 def plan(tier, seed):
     quick = tier == "quick"
     secs = 20 if quick else 200
     shards = [{"name": f"trees{i}", "gen": "trees", "seconds": secs} for i in range(6 if quick else 8)]
-    for g in ("matryoshka", "cmd", "seedmut", "url", "ioc", "soup", "repeat", "layer"):
+    for g in ("matryoshka", "cmd", "seedmut", "url", "ioc", "soup", "repeat", "layer", "echo"):
         shards.append({"name": g, "gen": g, "seconds": secs})
     return shards
 
@@ -120,6 +120,16 @@ def judge_scan(data, depth, ctx, label):
         except RecursionError:
             pass
     ctx.sample_light(case, root)
+    # incremental expansion: flatten was just called on every node; expanding the tree further must be reflected
+    if depth is not None and 0 < depth <= 3 and root.children:
+        try:
+            h.md.scan_node(root)
+        except Exception:  # noqa: BLE001
+            return
+        ctx.count("incremental_expansions")
+        mon_tree.check_c19(root, lambda k, m: ctx.violation(k + ":after-expansion", f"{m}; scan of {data[:100]!r} with depth "
+                                                           f"{depth}, flattened, expanded with scan_node, flattened again", case),
+                           ctx.counters, max_nodes=300)
 
 
 def run_shard(spec, ctx):
@@ -146,6 +156,8 @@ def run_shard(spec, ctx):
     for label, data, depth in inputs.generate(spec, r):
         if ctx.expired():
             break
+        if depth is None and r.random() < 0.3:
+            depth = r.choice([1, 1, 2, 3])
         if not ctx.begin({"kind": "scan", "data": runner.hx(data), "depth": depth, "label": label}):
             continue
         judge_scan(data, depth, ctx, label)
